@@ -118,6 +118,93 @@ def _kf_region(i, shape1, shape2, shared):
     return z3.And(i["s1"].e == i["s2"].e, z3.Xor(lon_eq, lat_eq))
 
 
+def make_derived(oid):
+    """'a copy of a grid equals the grid' and 'equal iff lon/lat/connectivity identical' for grids whose compared arrays are DERIVED: node lon/lat computed
+    lazily from Cartesian-only sources (read before or after the copy is taken), and a subset selecting every face (same arrays, built by the slicer)"""
+    ROWS = [[0, 1, 2, 3], [1, 4, 2, F]]
+    N = 5
+
+    def setup(ctx):
+        xyz = [[z3.Real(f"{c}_{i}") for i in range(N)] for c in "xyz"]
+        for col in xyz:
+            for v in col:
+                ctx.solver.add(v >= -1, v <= 1)
+        for c, col in zip("xyz", xyz):
+            ctx.eng.declare("n" + c, col)
+        return xyz, ctx.bool("read_before_copy"), ctx.bool("read_lat_first")
+
+    def build(xyz):
+        return C.clone_grid_from({"node_x": (["n_node"], xyz[0]), "node_y": (["n_node"], xyz[1]), "node_z": (["n_node"], xyz[2]),
+                                  "face_node_connectivity": (["n_face", "n_max_face_nodes"], [list(r) for r in ROWS], dict(C.FN_ATTRS))}, spec="Face Vertices")
+
+    def run(ctx, inp):
+        xyz, read_first, lat_first = inp
+        sc.NL_UF[0] = True
+        old_sqrt, symnp.SQRT_MODE[0] = symnp.SQRT_MODE[0], "uf"
+        symnp.TRIG_RANGE[0] = True
+        try:
+            g = build(xyz)
+            if bool(read_first):
+                if bool(lat_first):
+                    g.node_lat, g.node_lon
+                else:
+                    g.node_lon, g.node_lat
+            c = g.copy()
+            ctx.prove("a copy equals the grid (either operand order, != false), whether or not the coordinates were derived before the copy was taken",
+                      sc.and_(g == c, c == g, sc.not_(g != c)))
+            fresh = build(xyz)
+            ctx.prove("a grid on which coordinates were read equals a fresh grid from the same source", sc.and_(g == fresh, fresh == g))
+            sub = g.isel(n_face=[0, 1])
+            ctx.prove("the subset selecting every face (same node lon/lat and connectivity, same format) equals the grid", sc.and_(sub == g, g == sub, sc.not_(sub != g)))
+        finally:
+            sc.NL_UF[0] = False
+            symnp.SQRT_MODE[0] = old_sqrt
+            symnp.TRIG_RANGE[0] = False
+
+    def replay(v):
+        import xarray as xr
+        import uxarray as ux
+        import math
+
+        def build():
+            pts = []
+            for i in range(N):
+                p = np.array([float(v["nx"][i]), float(v["ny"][i]), float(v["nz"][i])])
+                if np.linalg.norm(p) < 1e-6 or len({tuple(np.round(q, 9)) for q in pts} | {tuple(np.round(p, 9))}) <= len(pts):
+                    lam, phi = math.radians(-160.0 + 37.0 * i), math.radians(-50.0 + 25.0 * i)     # western hemisphere first
+                    p = np.array([math.cos(phi) * math.cos(lam), math.cos(phi) * math.sin(lam), math.sin(phi)])
+                pts.append(p / np.linalg.norm(p))
+            P = np.array(pts)
+            ds = xr.Dataset()
+            for k, c in enumerate("xyz"):
+                ds["node_" + c] = xr.DataArray(P[:, k].copy(), dims=["n_node"])
+            ds["face_node_connectivity"] = xr.DataArray(np.array(ROWS, dtype=np.intp), dims=["n_face", "n_max_face_nodes"], attrs=dict(C.FN_ATTRS))
+            return ux.Grid.from_dataset(ds, source_grid_spec="Face Vertices")
+        for read_first in (bool(v["read_before_copy"]), True, False):
+            g = build()
+            if read_first:
+                if bool(v["read_lat_first"]):
+                    g.node_lat, g.node_lon
+                else:
+                    g.node_lon, g.node_lat
+            c = g.copy()
+            if not (g == c) or not (c == g) or (g != c):
+                return (f"Cartesian-only grid, coordinates {'read before' if read_first else 'not read before'} copy(): g == g.copy() is {g == c}, copy == g is {c == g}; "
+                        f"node_lon {np.asarray(g.node_lon.values).round(3).tolist()} vs the copy's {np.asarray(c.node_lon.values).round(3).tolist()}")
+            if not (g == build()):
+                return "a grid on which node_lon/node_lat were read no longer equals a fresh grid from the same source"
+            sub = g.isel(n_face=[0, 1])
+            if not (sub == g) or not (g == sub) or (sub != g):
+                return (f"the subset selecting every face does not equal the grid although node_lon {np.allclose(sub.node_lon.values, g.node_lon.values)}, "
+                        f"node_lat {np.allclose(sub.node_lat.values, g.node_lat.values)} and connectivity {np.array_equal(sub.face_node_connectivity.values, g.face_node_connectivity.values)} are identical")
+        return None
+
+    return Obligation(oid, "copy / fresh / full-subset equality on grids whose node lon/lat are derived from Cartesian coordinates", setup, run, replay, exact=False,
+                      functions=FUNCS + ["Grid.isel", "coordinates._populate_node_latlon", "coordinates._set_desired_longitude_range"],
+                      bounds="2 faces (4+3 corners) over 5 nodes with symbolic Cartesian coordinates; coordinates read before / after the copy, lat or lon first",
+                      stubs=["trig / products uninterpreted (coordinates compared as terms)"], max_paths=2000)
+
+
 def _validate():
     n = 0
     rows = [[0, 1, 2, F], [1, 3, 2, 4]]
@@ -144,5 +231,6 @@ def obligations(tier):
         make("C20.eq.more_faces", (4, 1, 3), (4, 2, 3)),
         make("C20.eq.wider_table", (4, 2, 3), (4, 2, 4)),
         make("C20.eq.same.5n3f4", (5, 3, 4), (5, 3, 4), tiers=("thorough",), cost=5),
+        make_derived("C20.eq.derived"),
     ]
     return [o for o in obs if tier in o.tiers]
